@@ -289,7 +289,7 @@ def shard_gcd_big(arg):
 
 def main(ctx):
     jobs = []
-    top = ctx.pick(1 << 20, 1 << 25)
+    top = ctx.pick(1 << 21, 1 << 25)
     step = top // (4 * ctx.jobs)
     edges = list(range(-5, top, step)) + [top + 1]
     for lo, hi in zip(edges, edges[1:]):
